@@ -17,6 +17,7 @@ import BtcVerif.Crypto.Sha256
 import BtcVerif.Crypto.Ripemd160
 import BtcVerif.Crypto.Secp256k1
 import BtcVerif.Model.Wire
+import BtcVerif.Model.Base58
 import BtcVerif.Spec.Keys
 
 namespace BtcVerif.Model.Keys
@@ -67,18 +68,36 @@ def isLowDERSignature (sig : Bytes) : Res Bool :=
 
 /-! ### `CECKey.signature_to_low_s`, `CECKey.sign` (bitcoin/core/key.py) -/
 
-/-- `signature_to_low_s(sig)`.
-    Contract for OpenSSL: on a strict DER signature `d2i_ECDSA_SIG` yields its `(r, s)`,
-    `EC_GROUP_get_order` yields `n`, `BN_rshift1` halves, `BN_cmp`/`BN_sub` are integer compare /
-    subtract, and `i2d_ECDSA_SIG` yields the strict DER encoding.  `none` stands for the `None` the
-    function returns when `i2d` produces nothing (not reachable on strict DER input). -/
-def signatureToLowS (sig : Bytes) : Option Bytes :=
-  match Secp256k1.derDecodeStrict sig with
-  | none => none
+/-- The OpenSSL calls `signature_to_low_s` makes, as parameters:
+    `d2i` = `d2i_ECDSA_SIG` (`none`: nothing was parsed, the struct keeps its NULL fields),
+    `i2d` = `i2d_ECDSA_SIG`, `order` = `EC_GROUP_get_order` of the key's group. -/
+structure SigCodec where
+  d2i : Bytes → Option (Nat × Nat)
+  i2d : Nat → Nat → Bytes
+  order : Nat
+
+/-- Contract under which the library is used: strict DER in both directions, the order of secp256k1.
+    The correspondence runs check the library against this instance. -/
+def SigCodec.reference : SigCodec :=
+  { d2i := Secp256k1.derDecodeStrict, i2d := Secp256k1.derEncode, order := Secp256k1.n }
+
+/-- `signature_to_low_s(sig)`, step by step:
+      d2i_ECDSA_SIG(&der_sig, &sig, len)            -- on failure der_sig.s stays NULL and the next
+                                                     -- BN_cmp dereferences it: modelled as `py:SIGSEGV`
+      EC_GROUP_get_order(group, order); BN_rshift1(halforder, order)
+      if BN_cmp(der_sig.s, halforder) > 0: BN_sub(der_sig.s, order, der_sig.s)
+      derlen = i2d_ECDSA_SIG(der_sig, 0);  if derlen == 0: return None
+      return the `derlen` bytes written by i2d_ECDSA_SIG -/
+def signatureToLowSWith (C : SigCodec) (sig : Bytes) : Res (Option Bytes) :=
+  match C.d2i sig with
+  | none => .error (.py "SIGSEGV")
   | some (r, s) =>
-      let halforder := Secp256k1.n / 2
-      let s' := if s > halforder then Secp256k1.n - s else s
-      some (Secp256k1.derEncode r s')
+    let halforder := C.order >>> 1
+    let s := if s > halforder then C.order - s else s
+    let der := C.i2d r s
+    if der.length = 0 then .ok none else .ok (some der)
+
+def signatureToLowS (sig : Bytes) : Res (Option Bytes) := signatureToLowSWith SigCodec.reference sig
 
 /-- what `CECKey.sign(hash)` does with the output `raw` of `ECDSA_sign`:
     `ValueError` unless the hash has 32 bytes; `raw` if `IsLowDERSignature(raw)`, else
@@ -87,7 +106,7 @@ def signFinish (hash : Bytes) (raw : Bytes) : Res (Option Bytes) :=
   if hash.length ≠ 32 then .error .valueerr
   else do
     let low ← isLowDERSignature raw
-    if low then pure (some raw) else pure (signatureToLowS raw)
+    if low then pure (some raw) else signatureToLowS raw
 
 /-! ### `DERSignature.stream_deserialize` (bitcoin/signature.py) and the padding of `sign_compact` -/
 
@@ -115,7 +134,8 @@ def pad32 (v : Bytes) : Res Bytes :=
 /-! ### `CECKey.recover` (bitcoin/core/key.py) — python glue over BN_* / EC_POINT_* -/
 
 /-- Return value of `CECKey.recover(sigR, sigS, msg, msglen, recid, check)` for 32-byte `sigR`,
-    `sigS`, `msg`: `1` and the recovered point, or the failure code (`0`, `-1`).
+    `sigS` and a `msg` of any length (a message longer than the group degree is shifted right by
+    `8 - (256 & 7) = 8` bits, as coded): `1` and the recovered point, or the failure code (`0`, `-1`).
     Contract for OpenSSL: `BN_*` are integer operations, `BN_mod_inverse` fails exactly when the
     argument has no inverse mod n (here: `r ≡ 0`), `EC_POINT_set_compressed_coordinates_GFp` is
     `liftX`, `EC_POINT_mul(group, Q, a, R, b)` is `a·G + b·R`. -/
@@ -130,7 +150,8 @@ def recover (sigR sigS msg : Bytes) (recid : Nat) (check : Bool) : Int × Option
   | none => (0, none)
   | some R =>
     if check && Secp256k1.mul order R != .inf then (0, none) else
-    let e := beNat msg                                  -- 8·msglen = 256 = degree: no shift
+    let e := beNat msg
+    let e := if 8 * msg.length > 256 then e >>> 8 else e    -- BN_rshift(e, e, 8 - (n & 7)), n = degree = 256
     let e := (order - e % order) % order                -- BN_mod_sub(e, 0, e, order)
     if r % order = 0 then (-1, none) else               -- BN_mod_inverse fails
     let rr := Secp256k1.invMod (r % order) order
@@ -138,6 +159,12 @@ def recover (sigR sigS msg : Bytes) (recid : Nat) (check : Bool) : Int × Option
     let eor := e * rr % order
     let Q := Secp256k1.mulAdd2 eor Secp256k1.G sor R
     (1, some Q)
+
+/-- header arithmetic of `recover_compact`: `recid = (sig[0] - 27) & 3`,
+    `compressed = (sig[0] - 27) & 4 != 0` (Python's `&` on a possibly negative int: floor semantics) -/
+def headerDecode (h : Nat) : Nat × Bool :=
+  let d : Int := (h : Int) - 27
+  ((d % 4).toNat, decide ((d / 4) % 2 ≠ 0))
 
 /-- `CPubKey.recover_compact(hash, sig)`: `ValueError` unless 65 bytes; header decoded with
     `(sig[0] - 27) & 3` and `(sig[0] - 27) & 4` (Python's `&` on a possibly negative int is the
@@ -148,19 +175,12 @@ def recoverCompact (hash sig : Bytes) : Res (Option Bytes) :=
   match sig with
   | [] => .error .valueerr
   | h :: body =>
-    let d : Int := (h.toNat : Int) - 27
-    let recid := (d % 4).toNat
-    let compressed := (d / 4) % 2 ≠ 0
+    let (recid, compressed) := headerDecode h.toNat
     let sigR := body.take 32
     let sigS := (body.drop 32).take 32
     match recover sigR sigS hash recid false with
     | (1, some Q) => .ok (some (Secp256k1.encode Q compressed))
     | _ => .ok none
-
-/-- header arithmetic of `recover_compact` alone -/
-def headerDecode (h : Nat) : Nat × Bool :=
-  let d : Int := (h : Int) - 27
-  ((d % 4).toNat, decide ((d / 4) % 2 ≠ 0))
 
 /-- `SignMessage`: `meta = 27 + i; if key.is_compressed: meta += 4` -/
 def headerByte (recid : Nat) (compressed : Bool) : Nat :=
@@ -226,17 +246,22 @@ def msgDigestText (text : String) : Res Bytes :=
 /-- payload of `P2PKHBitcoinAddress.from_pubkey(pubkey)`: Hash160 of the serialized key -/
 def p2pkhPayload (pubkey : Bytes) : Bytes := hash160 pubkey
 
-/-- `VerifyMessage(address, message, sig)` after base64-decoding, with both addresses represented
-    by (version byte, payload): true iff the recovered key's P2PKH address has the same text.
-    `recover_compact` returning `False` makes `from_pubkey` raise TypeError. -/
-def verifyMessage (chainPubkeyVersion : Nat) (addrVersion : Nat) (addrPayload : Bytes)
-    (magic msg sig : Bytes) : Res Bool := do
+/-- `str(P2PKHBitcoinAddress.from_pubkey(pubkey))` under the selected chain: Base58Check text of the
+    chain's PUBKEY_ADDR version byte and Hash160 of the serialized key -/
+def p2pkhText (chainPubkeyVersion : Nat) (pubkey : Bytes) : List Char :=
+  Model.Base58.str hash256 ⟨UInt8.ofNat chainPubkeyVersion, p2pkhPayload pubkey⟩
+
+/-- `VerifyMessage(address, message, sig)` after base64-decoding; `addrText` is `str(address)` of
+    whatever object was passed (a P2PKH, P2SH or segwit address, or any other): the answer is the
+    comparison of two texts.  `recover_compact` returning `False` makes `from_pubkey` raise
+    TypeError; a recovered key that is not fully valid raises CBitcoinAddressError. -/
+def verifyMessage (chainPubkeyVersion : Nat) (addrText : List Char) (magic msg sig : Bytes) : Res Bool := do
   let h ← msgDigest magic msg
   match ← recoverCompact h sig with
   | none => throw (.py "TypeError")
   | some pk =>
       match Secp256k1.decode pk with
       | none => throw .addrerr
-      | some _ => pure (decide (chainPubkeyVersion = addrVersion) && p2pkhPayload pk == addrPayload)
+      | some _ => pure (decide (p2pkhText chainPubkeyVersion pk = addrText))
 
 end BtcVerif.Model.Keys
